@@ -24,8 +24,8 @@ CHECKS.update({
  'C14': ('Kernel agreement incl. created-mode edges (dirty iff the path exists) and the ALWAYS pseudo-file (changed in every run); redo-ifcreate refuses an existing path and otherwise commits a created-mode edge; redo-always commits an edge to ALWAYS and stamps it changed in this run. "Exactly once per run with several parallel dependents" is NOT claimed.', DEPS_NOTE, 'DESIGN.md §5 C14'),
  'C17': ('is_source / is_target never both, pseudo files neither, existing non-generated file is a source, generated file as recorded is a target (every row x filesystem state); redo-ood runs the same kernel (agreement as in C01) and leaves every row as it found it (no commit). The over-approximation bounds relative to the builder are argued from the shared kernel, not separately decided.', DEPS_NOTE, 'DESIGN.md §5 C17'),
 })
-CHECKS['C13'] = ('For EVERY ASCII file name up to the length bound at every directory depth up to the bound, the candidate list produced by the real possible_do_files / DefaultDoFiles / RecursiveDoFilesState / path_splits MIR equals the order written in the property statement (do_dir, do_file, $2 base name, matched extension), and do_dir/(base_name+ext) is the target; find_do_file probes candidates in that order, stops at the first existing one, records an m-edge on it and a c-edge on every earlier candidate. The argv/$3/cwd construction inside start_self and redo-whichdo\'s printing are not yet encoded.',
-  'Targets absolute and lexically clean; non-ASCII names outside the alphabet; ouroboros plumbing stubbed. ' + TRUST, 'DESIGN.md §5 C13')
+CHECKS['C13'] = ('For EVERY ASCII file name up to the length bound at every directory depth up to the bound, the candidate list produced by the real possible_do_files / DefaultDoFiles / RecursiveDoFilesState / path_splits MIR equals the order written in the property statement (do_dir, do_file, $2 base name, matched extension), and do_dir/(base_name+ext) is the target; find_do_file probes candidates in that order, stops at the first existing one, records an m-edge on it and a c-edge on every earlier candidate. The invocation of the chosen script is decided on the real child closure of BuildJob::start_self executed up to execvp (cwd = script directory, $1 relative to it, $2 without the matched extension, $3 beside the target, #! line, REDO_TARGET, cycle list) for 9 target/.do shapes, and redo-whichdo prints exactly the candidates considered up to the first existing one. That adding or removing a candidate later triggers a rebuild follows from the recorded edges together with the kernel obligations of C02/C14.',
+  'Symbolic names are ASCII; unclean spellings by template; ouroboros plumbing stubbed; the child closure is run at the modelled fork. ' + TRUST, 'DESIGN.md §5 C13')
 CHECKS['C18'] = ('Record codec only: for EVERY kind / text / target name up to the length bound (every ASCII byte symbolic) and every pid / exit status (symbolic i32), Meta::parse(format(m)) returns the same kind, pid and text (including texts that look like structured records), parse rejects strings with a newline, parse_done_text inverts the "done" text for names with spaces, is_valid_log_line accepts exactly lines with one newline at the end, and log::clean_line output is always a valid line - all on the real MIR of logs.rs / log.rs. That every stderr line of every script appears once, in order, under its target at any -j (the log follower racing with writers) is NOT claimed.',
   'Integer and float formatting are opaque tokens with an injectivity axiom. ' + TRUST, 'DESIGN.md §5 C18')
 BUILD_NOTE = ('One build job of one target; the forked child (sh -e x.do) is not executed - its observable outcome is an input. Filesystem, '
